@@ -21,6 +21,8 @@ import universe as U
 RT_TOO_LARGE = {("c01", "VecDeepS", 1), ("c02", "VecDeepS", 1), ("c02", "DeepSStr", 2), ("c07", "BoxString", 5), ("c07", "VecString", 3),
                 ("c03", "VecDeepS", 1), ("c03", "BoxString", 2), ("c03", "BoxString", 3), ("c03", "BoxString", 4), ("c03", "BoxString", 5),
                 ("c03", "VecString", 2), ("c03", "VecString", 3), ("c03", "VecString", 4), ("c03", "VecString", 5)}
+# full-copy / eps round trips of Vec<String> and Box<[String]> with two strings (shapes 2..5): > 24 GB in the first full thorough run of C01
+RT_TOO_LARGE |= {(f, c, sh) for f in ("c01", "c02") for c in ("VecString", "BoxString") for sh in (2, 3, 4, 5)}
 
 
 def fam_harnesses(fam, tier, what, rows=None, only_borrows=False, covers="all"):
@@ -158,6 +160,8 @@ def c12_harnesses(tier):
         if row["case"] in C12_TOO_LARGE:
             continue
         for sh in (U.shapes(row, tier) if tier == "thorough" else U.shapes(row, tier)[:1]):
+            if (row["case"], sh) in (("Str", 6), ("BoxStr", 5)):  # two-character shapes: > 24 GB with the base symbolic
+                continue
             hs.append(H("inst::" + U.inst_name("c12", row["case"], "x", sh),
                         bound=f"{row['ty']}: all values, shape {sh}; buffer base residue R symbolic in 0..128",
                         what="Ok iff every recorded block lands on a multiple of its unit, else AlignmentError; references aligned",
@@ -169,7 +173,7 @@ PLAN["C12"] = dict(
     quick=lambda seed: [dict(harnesses=c12_harnesses("quick") + [twin("c12::c12_twin_reach")], timeout=900)],
     thorough=lambda seed: [dict(harnesses=c12_harnesses("thorough") + [twin("c12::c12_twin_reach")], timeout=3600)],
     bounds=dict(RT_BOUNDS, base_residue="all R in 0..128 (symbolic) of a 128-aligned buffer; stream offset 0"),
-    outside=COMMON_OUTSIDE + ["misplaced-buffer instances of " + ", ".join(C12_TOO_LARGE) + " and of Both<Option<_>,u32,()>: with the base residue symbolic CBMC exceeds the memory cap; their blocks pass through the same SliceWithPos::align as the instances that are run"],
+    outside=COMMON_OUTSIDE + ["misplaced-buffer instances of " + ", ".join(C12_TOO_LARGE) + ", of Both<Option<_>,u32,()> and the shapes String#6 / Box<str>#5: with the base residue symbolic CBMC exceeds the memory cap; their blocks pass through the same SliceWithPos::align as the instances that are run"],
     stubs=RT_STUBS + ["Probe (as C07)"], assumptions=["CBMC places objects at maximally aligned bases: misplacement is the explicit offset R"])
 
 
